@@ -16,6 +16,7 @@ def gen_universe(rng, max_classes=5, max_objs=5, mixins=True, evs=None):
     lines, mapping_of, handler_classes, mixin_classes = [], [], [], []
     EVS = evs or globals()['EVS']
     pyc = []        # real (empty) classes, to reject what Python's C3 linearisation rejects
+    has_over = {}   # class (or an ancestor of it) defines a callback method itself
     n = rng.randint(1, max_classes)
     for cid in range(n):
         kind = rng.random()
@@ -28,6 +29,14 @@ def gen_universe(rng, max_classes=5, max_objs=5, mixins=True, evs=None):
         bases = []
         if handler_classes and rng.random() < 0.7:
             bases.append(rng.choice(handler_classes))
+            if len(handler_classes) > 1 and rng.random() < 0.25:
+                # two handler bases: the mapping a class starts from is the one attribute lookup finds
+                # (the first base's lineage), not a merge of both
+                # (the second lineage defines no callback method of its own: which override wins across two
+                # lineages is Python's C3 linearisation, not the dispatcher's business)
+                cands = [h for h in handler_classes if h != bases[0] and not has_over.get(h)]
+                if cands:
+                    bases.append(rng.choice(cands))
         if mixin_classes and rng.random() < 0.3:
             mx = rng.choice(mixin_classes)
             if rng.random() < 0.5:
@@ -37,7 +46,7 @@ def gen_universe(rng, max_classes=5, max_objs=5, mixins=True, evs=None):
         try:
             pyc.append(type(f'K{cid}', tuple(pyc[b] for b in bases), {}))
         except TypeError:
-            bases = [b for b in bases if mapping_of[b] is not None]
+            bases = [b for b in bases if mapping_of[b] is not None][:1]
             pyc.append(type(f'K{cid}', tuple(pyc[b] for b in bases), {}))
         names = rng.sample(EVS, rng.choice([0, 0, 1, 1, 2]))
         kw = {}
@@ -53,6 +62,7 @@ def gen_universe(rng, max_classes=5, max_objs=5, mixins=True, evs=None):
         handler_classes.append(cid)
         # a class may define (override) some of the callback methods itself
         over = [x for x in sorted(set(m.values())) if rng.random() < 0.3]
+        has_over[cid] = bool(over) or any(has_over.get(b) for b in bases)
         lines.append('class %d bases=%s names=%s kw=%s over=%s' % (
             cid, ','.join(map(str, bases)) or '-', ','.join(names) or '-',
             ','.join(f'{k}:{v}' for k, v in kw.items()) or '-', ','.join(over) or '-'))
